@@ -262,6 +262,10 @@ def run_fourier(case, drv):
         warnings.simplefilter('ignore')
         st, op = call(lambda: mrpro.operators.FourierOp(SpatialDimension(*recon), SpatialDimension(*enc), traj))
     if st != 'ok':
+        if op == 'NotImplementedError':
+            # the documented limitation: a direction that happens to be on the grid but is not aligned with its k-space dimension next to a
+            # NUFFT direction (e.g. two radial spokes at 0 and 90 degrees) is rejected explicitly - not a statement about the encoding model
+            return Outcome(key=('fourier-unsupported', case['flavour']), nontrivial=False, branches=['fourier:not-implemented'])
         return Outcome(key=('fourier-ctor', case['flavour']), corr=f'FourierOp constructor raised {op} for flavour {case["flavour"]} {recon} {enc}')
     tshape = list(traj.broadcasted_shape)
     b = max(case['other'], tshape[0])
